@@ -698,6 +698,9 @@ func (in *Interp) defFunc(d *FuncDef, sc *scope, m *modEnv) *ctl {
 	if c := in.declare(sc, d.Name, f, true); c != nil {
 		return c
 	}
+	if sc != m.top {
+		return nil // declared inside a method body: local to that call, not an export
+	}
 	if _, dup := m.exports[d.Name]; dup {
 		return rterr("redeclare")
 	}
@@ -716,6 +719,9 @@ func (in *Interp) defClass(d *ClassDef, sc *scope, m *modEnv, fr *frame) *ctl {
 	}
 	if c := in.declare(sc, d.Name, cv, true); c != nil {
 		return c
+	}
+	if sc != m.top {
+		return nil // declared inside a method body: local to that call, not an export
 	}
 	if _, dup := m.exports[d.Name]; dup {
 		return rterr("redeclare")
